@@ -9,7 +9,8 @@ META = dict(
               "raises on the first event), optional 2 scheduled jobs (one raises); fault script chosen by the solver: "
               "failing phase in {none, initialize, main, finalize} x failing producer x ending in {sources exhausted / "
               "idle stop, stop() from a handler, handler error with stop_on_handler_exceptions, external cancellation "
-              "at 0 / 15 / 50 ms} x handler duration in {0, 30 ms, 5 s}; max_concurrent symbolic in 1..3",
+              "at 0 / 15 / 50 ms, stop() from another task at 5 / 15 / 50 ms (5 ms: a producer is still initialising)} x "
+              "handler duration in {0, 30 ms, 5 s}; max_concurrent symbolic in 1..3",
         thorough="adds 1 and 3 producers, max_concurrent up to 5"),
     stubs=["basana.core.dt.utc_now -> virtual clock", "VLoop", "logging disabled (the record factory is called "
            "directly to observe it)"],
